@@ -99,13 +99,12 @@ pub struct UnsafeProtocolChainConfig {
 
 impl UnsafeProtocolChainConfig {
     pub fn validate(&self) -> Result<ProtocolChainConfig, ContractError> {
-        let channel_id_correct = self.ibc_channel_id.starts_with("channel-")
-            && self
-                .ibc_channel_id
-                .strip_prefix("channel-")
-                .unwrap()
-                .parse::<u64>()
-                .is_ok();
+        // channel-<n>: only decimal digits after the prefix (u64::from_str alone also accepts "+5")
+        let channel_id_correct = self
+            .ibc_channel_id
+            .strip_prefix("channel-")
+            .map(|n| !n.is_empty() && n.bytes().all(|b| b.is_ascii_digit()) && n.parse::<u64>().is_ok())
+            .unwrap_or(false);
         if !channel_id_correct {
             return Err(ContractError::IbcChannelConfigWrong {});
         }
